@@ -93,4 +93,17 @@ def jobs(tier, seed, prop):
                    functions=["%s:%d %s" % (f["file"], f["line"], f["name"]) for f in ginf["functions"]], info=ginf,
                    bounded="chains <= 3, dimensions <= 2 (state array of the receiver struct)",
                    label="TasmanianDREAM::getIJKdelta body: memory-safe under the index precondition that F13 establishes"))
+    # --- the small state members against their own contracts
+    R4 = X.Rules()
+    parts, fns = [], []
+    for w in ("setState", "setPDFvalues", "saveStateHistory"):
+        t_, i_ = dream.emit_state_fn(R4, w)
+        parts.append(t_); fns += i_["functions"]
+    minfo = {"functions": fns, "rules_fired": {k: v for k, v in R4.counts.items() if v}}
+    t2 = [t for k, a, t in cf.sections if k == "text2"][0]
+    ctext = (pre + "#define TSG_NITER 1\n#define TSG_FORM 0\n#define TSG_SAMPLE(a,b,c)\n#define DREAM_MEMBERS_BODY 1\n" + '#line 1 "/verif/contracts/dream.c"\n' + cf.text(("text",)) + t2 + "".join(parts) + cf.text(("harness",), ["h_state_members"]))
+    out.append(Job("dream.state_members", ctext, "h_state_members", unwind=8, timeout=300, backends=[["--refine-arithmetic"], []],
+                   functions=["%s:%d %s" % (f["file"], f["line"], f["name"]) for f in fns], info=minfo,
+                   bounded="chains <= 3, dimensions <= 2",
+                   label="TasmanianDREAM::setState / setPDFvalues / saveStateHistory bodies against the contracts the SampleDREAM stubs assume"))
     return out
